@@ -71,6 +71,8 @@ TOTAL = {
     "std::vec::Vec::<T, A>::push": "allocation only",
     "std::vec::Vec::<T>::new": "constructor",
     "std::vec::Vec::<T>::with_capacity": "allocation only (capacity overflow is an allocation failure)",
+    "std::vec::Vec::<T, A>::reserve": "allocation only (capacity overflow is an allocation failure)",
+    "std::vec::Vec::<T, A>::reserve_exact": "allocation only (capacity overflow is an allocation failure)",
     "std::mem::take": "total (Default::default of a std collection)",
     "std::string::String::push": "allocation only",
     "std::string::String::with_capacity": "allocation only (capacity overflow is an allocation failure)",
@@ -191,7 +193,9 @@ def stream(ctx):
                     lt = g.lifted_operand(n, a)
                     from .c06 import direct_subterms
                     on_stream = any(isinstance(s, tuple) and s and s[0] == "field" and s[3] == "stream" and s[2] == conn.HC for s in direct_subterms(lt))
-            if on_stream or p == want:
+            local = ((c.get("resolved") or {}).get("path") or p) in facts.fns
+            if (on_stream and not local) or p == want:
+                # a crate-local callee that is handed the stream is part of the inlined graph: what *it* does with the stream counts
                 sites.append((nid, n, p))
         short = entry.split("::")[-1]
         ok = len(sites) == 1 and sites[0][2] == want
@@ -207,7 +211,7 @@ def stream(ctx):
     roots = set()
     for u in users:
         roots |= (known_callers(facts, u) if is_new_fn(u) else {u})
-    ctx.ob("R03.1", "stream-users", roots <= {conn.TRY_WRITE, conn.RECV}, "functions that borrow HttpConnection.stream: %s (on behalf of %s)" % (sorted(users), sorted(roots)))
+    ctx.ob("R03.1", "stream-users", roots <= {conn.TRY_WRITE, conn.RECV, conn.READ_BYTES}, "functions that borrow HttpConnection.stream: %s (on behalf of %s)" % (sorted(users), sorted(roots)))
 
 
 # ------------------------------------------------------------------------------------------ R03.4
@@ -652,7 +656,7 @@ def panics(ctx, typestate_ok, body_inv_ok=False, scope=None):
             ctx.fail("R03.2", "site|" + full_key, "cannot prove that this cannot panic: %s -- it depends on the object invariant R03.6, which does not hold any more" % s.desc, s.loc)
             continue
         ctx.fail("R03.2", "site|" + full_key, "cannot prove that this cannot panic: %s (%s; %d path(s))" % (s.desc, why or "obligation not entailed", npaths), s.loc)
-    floor = 40 if facts.raw.get("overflow_checks") else 30
+    floor = 32 if facts.raw.get("overflow_checks") else 24        # today: 43 / 31; a restatement with std helpers removes a handful of sites
     if scope is not None:
         ctx.ob("R03.2", "inventory|floor", n_sites >= 1, "%d panic-capable sites enumerated in the functions in scope %s (floor 1): %d proved, %d environment" % (n_sites, list(scope), n_ok, n_env))
         return
